@@ -7,6 +7,7 @@ package main
 import (
 	"encoding/json"
 	"fmt"
+	. "verif/harness/hlib"
 
 	"deps.dev/util/resolve"
 	"github.com/google/osv-scalibr/guidedremediation/verifhooks"
@@ -77,8 +78,8 @@ func osvSystem(eco string) resolve.System {
 }
 
 func init() {
-	register("osvrange", func(e *env) error {
-		return mapCases(e, func(idx int, raw []byte) (any, error) {
+	Register("osvrange", func(e *Env) error {
+		return MapCases(e, func(idx int, raw []byte) (any, error) {
 			var c osvCase
 			if err := json.Unmarshal(raw, &c); err != nil {
 				return nil, err
@@ -128,7 +129,7 @@ func init() {
 						VersionType: resolve.Concrete,
 					})
 					var got bool
-					if p := safely(func() { got = verifhooks.IsAffected(vuln, pkg) }); p != "" {
+					if p := Safely(func() { got = verifhooks.IsAffected(vuln, pkg) }); p != "" {
 						obs[q-1] = "panic: " + p
 					} else {
 						obs[q-1] = got
